@@ -391,10 +391,9 @@ def step (ctx : Ctx) (lhs : String) (implObs : String := "") : Ctx × String :=
       match label with
       | "start" => stepOr "idle"
       | "want-begin" =>
-        if d = "want-begin" then
-          match concStep c t with
-          | some c' => fin c' "ok"
-          | none => fin c "ok" (t :: ctx.lateBegin)      -- the model's lock is taken: the implementation must block too
+        -- the lock is taken at `begun`, never here: between a thread's `want-begin` and its `begun` another waiter may
+        -- be given the lock by the implementation, and which waiter gets it is not the model's to decide
+        if d = "want-begin" then fin c "ok" (t :: ctx.lateBegin)
         else fin c s!"mismatch:model-thread-is-{d}"
       | "begun" =>
         if ctx.lateBegin.contains t then
@@ -403,7 +402,9 @@ def step (ctx : Ctx) (lhs : String) (implObs : String := "") : Ctx × String :=
           | none => fin c "mismatch:implementation-began-a-transaction-while-the-model-lock-is-held"
         else if d.startsWith "call:" || d = "at-end" then fin c "ok" else fin c s!"mismatch:model-thread-is-{d}"
       | "blocked" =>
-        if ctx.lateBegin.contains t then fin c "ok" else fin c "mismatch:implementation-blocked-but-model-lock-was-free"
+        -- informational: the implementation may find the lock still taken for a moment after the holder's `end` was
+        -- logged (the log entry precedes the release), so nothing is demanded of the model's lock here
+        if ctx.lateBegin.contains t then fin c "ok" else fin c "mismatch:blocked-without-want-begin"
       | "begin-failed" => fin c "mismatch:begin-failed"
       | "end" =>
         let c := skipReads c 64
